@@ -702,6 +702,16 @@ func checkInnerArraysKept(c *Ctx, rule string, ev *tmpl.Evaluator) {
 	if len(conds) == 0 {
 		c.Ok(rule, "sliceparambinder › inner arrays are bound unconditionally", l.Tree.File, "no length test around the recursion")
 	}
+	// a generated `continue` leaves the iteration of the rebuild loop: the element must have been appended just before
+	for i, ct := range l.Find(regexp.MustCompile(`(?m)^\s*continue\s*$`)) {
+		prev := strings.TrimRight(l.Text[:ct.Start], " \t\n")
+		if j := strings.LastIndexByte(prev, '\n'); j >= 0 {
+			prev = prev[j+1:]
+		}
+		ok := regexp.MustCompile(appendRx).MatchString(prev)
+		c.Check(ok, rule, fmt.Sprintf("sliceparambinder › continue #%d follows an append of the element", i+1), l.Tree.PosStr(ct.Pos), "the element is appended before the iteration is left",
+			"the rebuild loop is left with `continue` after `"+strings.TrimSpace(prev)+"`, without appending the element: null items of the array do not reach the handler")
+	}
 }
 
 // checkDefaultMedia: the runtime serves an operation that has no media type of its own with
